@@ -335,6 +335,8 @@ func exec(line string) zv.Out {
 		return execNeg(f)
 	case "seq":
 		return execSeq(f)
+	case "lsn":
+		return execLsn(f)
 	case "mv":
 		peer, _ := parseList(f[4])
 		cfg := &tls.Config{MinVersion: uint16(atoi(f[2])), MaxVersion: uint16(atoi(f[3]))}
@@ -530,9 +532,11 @@ func gen(g *zv.Gen) {
 	}
 	// sequences of connections through one session cache while the configurations change
 	genSeq(g)
+	// the same through one long-lived listener Config with GetConfigForClient / GetCertificate callbacks
+	genLsn(g)
 }
 
 func init() {
 	zv.Register(&zv.Prop{ID: "C24", Topic: "c24", Gen: gen, Exec: exec,
-		Rule: "neg: random (client, server) configuration pairs over version ranges TLS1.0-1.3 (incl. unset/empty ranges) x default or random subsets of every implemented suite id (+TLS1.3 ids, rarely FALLBACK_SCSV) x ForceSuites x curve lists x ALPN lists x server preference flag x server key type (RSA, ECDSA, Ed25519) x optional forged downgrade sentinel; each is one real in-process handshake, a case is non-trivial when distinct; mv/deprio/sel: direct calls of mutualVersion, deprioritizeAES, selectCipherSuite+cipherSuiteOk on random arguments. T3: endpoint agreement (version, suite, ALPN, EKM), highest shared version, suite enabled on both sides, sentinel presence and client abort, and liveness (a usable shared suite at a shared version implies completion). seq: sequences of 2-4 real connections through ONE ClientSessionCache against servers sharing explicit ticket keys (SetSessionTicketKeys) while the client and/or server configuration CHANGES between the connections: systematic = base configurations (TLS 1.0-1.2: random pairs of usable suites x RSA/ECDSA key; TLS 1.3: every ordered pair of TLS 1.3 suites) x 23 single changes (suite dropped / reordered / defaulted on either side, preference flag, version bounds down / up on either side, ticket key replaced / rotated / tickets off, cache off, certificate key type, curves (HelloRetryRequest), ForceSuites, ALPN), each also followed by the original configuration or a second change; random = walks of 1-3 random edits per connection over all those dimensions. Every connection is compared with the model (outcome, DidResume, cache entry kept / stored / dropped) and judged (T3): all single-connection checks against the CURRENT configurations (so a resumed suite must be offered now and enabled now, and a session that cannot be resumed must fall back to a full handshake whenever a version and usable suite are shared), both ends agree on DidResume, equal exporter output, application data flows, a resumed connection continues the cached session (ticket key listed now, same version, same suite / TLS 1.3 same hash, suite usable with the current key), unchanged configurations resume"})
+		Rule: "neg: random (client, server) configuration pairs over version ranges TLS1.0-1.3 (incl. unset/empty ranges) x default or random subsets of every implemented suite id (+TLS1.3 ids, rarely FALLBACK_SCSV) x ForceSuites x curve lists x ALPN lists x server preference flag x server key type (RSA, ECDSA, Ed25519) x optional forged downgrade sentinel; each is one real in-process handshake, a case is non-trivial when distinct; mv/deprio/sel: direct calls of mutualVersion, deprioritizeAES, selectCipherSuite+cipherSuiteOk on random arguments. T3: endpoint agreement (version, suite, ALPN, EKM), highest shared version, suite enabled on both sides, sentinel presence and client abort, and liveness (a usable shared suite at a shared version implies completion). seq: sequences of 2-4 real connections through ONE ClientSessionCache against servers sharing explicit ticket keys (SetSessionTicketKeys) while the client and/or server configuration CHANGES between the connections: systematic = base configurations (TLS 1.0-1.2: random pairs of usable suites x RSA/ECDSA key; TLS 1.3: every ordered pair of TLS 1.3 suites) x 23 single changes (suite dropped / reordered / defaulted on either side, preference flag, version bounds down / up on either side, ticket key replaced / rotated / tickets off, cache off, certificate key type, curves (HelloRetryRequest), ForceSuites, ALPN), each also followed by the original configuration or a second change; random = walks of 1-3 random edits per connection over all those dimensions. Every connection is compared with the model (outcome, DidResume, cache entry kept / stored / dropped) and judged (T3): all single-connection checks against the CURRENT configurations (so a resumed suite must be offered now and enabled now, and a session that cannot be resumed must fall back to a full handshake whenever a version and usable suite are shared), both ends agree on DidResume, equal exporter output, application data flows, a resumed connection continues the cached session (ticket key listed now, same version, same suite / TLS 1.3 same hash, suite usable with the current key), unchanged configurations resume. lsn: sequences of 2-4 real connections through one ClientSessionCache to ONE long-lived listener Config (ticket keys: auto-managed with real randomness / SetSessionTicketKeys / legacy SessionTicketKey field / SessionTicketsDisabled) whose GetConfigForClient is, per connection, unset / returns nil / returns a fresh listener.Clone() / returns a new per-client Config / returns a long-lived per-name Config, each with no ticket settings, explicit keys (SetSessionTicketKeys or the SessionTicketKey field, equal to or different from the listener's) or SessionTicketsDisabled on the returned Config, the certificate coming from Certificates or from GetCertificate: systematic = 5 listener key settings x (every one of the 17 callback variants three times in a row; every ordered pair of the 5 key-keeping variants A,B,A; key-keeping x key-owning variants A,B,A,B) on TLS 1.0-1.2 and TLS 1.3 bases with RSA / ECDSA keys; random = seq-style walks over both configurations with a random callback variant per connection. Compared with the model (readClientHello + Config.ticketKeys: outcome, DidResume, cache event per connection) and judged (T3) like seq with the ticket keys the DOCUMENTATION of GetConfigForClient gives the connection (returned Config's explicit keys, else the original Config's): both ends agree on DidResume, a resumed ticket was sealed under a key in force now, two consecutive connections with the same configurations in force and the same keys in force resume whatever callback variants produced them, GetConfigForClient runs exactly once per completed handshake"})
 }
